@@ -79,6 +79,50 @@ pub fn run(toks: &[&str]) -> String {
     if !rest.is_empty() {
         return "bad-tree".into();
     }
+    // a filter is a value: a clone, and a clone written over ANY earlier filter (`clone_from`, also reached through
+    // Vec / Option), renders exactly like the original
+    {
+        let f0 = f.clone();
+        let differs = catch(move || {
+            let want = sent_bytes(&commands::Find::new(f0.clone()).command());
+            if sent_bytes(&commands::Find::new(f0.clone().clone()).command()) != want {
+                return Some("clone()".to_string());
+            }
+            let targets: Vec<(&str, Filter)> = vec![
+                ("a == leaf", Filter::new(Tag::Artist, Operator::Equal, "old")),
+                ("a != leaf", Filter::new(Tag::Title, Operator::NotEqual, "old")),
+                ("a contains leaf", Filter::new(Tag::Album, Operator::Contain, "old")),
+                ("a =~ leaf", Filter::new(Tag::Genre, Operator::Match, "o.*")),
+                ("a !~ leaf", Filter::new(Tag::Genre, Operator::NotMatch, "o.*")),
+                ("tag_exists", Filter::tag_exists(Tag::Date)),
+                ("tag_absent", Filter::tag_absent(Tag::Date)),
+                ("a negated leaf", Filter::tag(Tag::Artist, "old").negate()),
+                ("an AND chain", Filter::tag(Tag::Artist, "o1").and(Filter::tag(Tag::Album, "o2")).and(Filter::tag_exists(Tag::Title))),
+                ("a negated AND chain", !Filter::tag(Tag::Artist, "o1").and(Filter::new(Tag::Album, Operator::Contain, "o2"))),
+            ];
+            for (name, mut t) in targets {
+                t.clone_from(&f0);
+                if sent_bytes(&commands::Find::new(t).command()) != want {
+                    return Some(format!("clone_from over {name}"));
+                }
+            }
+            let mut v = vec![Filter::new(Tag::Title, Operator::Contain, "old"), Filter::tag_absent(Tag::Album)];
+            v.clone_from(&vec![f0.clone(), f0.clone()]);
+            let mut o = Some(Filter::new(Tag::Title, Operator::NotMatch, "old"));
+            o.clone_from(&Some(f0.clone()));
+            for t in v.into_iter().chain(o) {
+                if sent_bytes(&commands::Find::new(t).command()) != want {
+                    return Some("Vec / Option clone_from".to_string());
+                }
+            }
+            None
+        });
+        match differs {
+            Ok(None) => {}
+            Ok(Some(d)) => return format!("INCONSISTENT the_filter_obtained_by_{}_renders_differently_from_the_original", d.replace(' ', "_")),
+            Err(_) => {}   // a filter that cannot be rendered at all: reported by the case itself below
+        }
+    }
     let r = catch(move || {
         let raw = match how {
             "find" => commands::Find::new(f).command(),
